@@ -15,6 +15,7 @@ GoodCfg(k) == /\ k.adj \in {"f", "p", "m"} /\ k.wk \in {{5, 6}, {4, 5}, {6}, {}}
 Judge(k, e) ==
     LET q == e.q  out == e.out IN
     IF q.op = "fetch" THEN (IF out.kind = "val" /\ out.v = SetToSortSeq(k.hol, <) THEN "" ELSE "registry_reflects_holidays")
+    ELSE IF MonthNo(q.t) # MonthOf(q.t) THEN "spec_monthno"                      \* self-check of the specification
     ELSE IF ~InDomain(k, q) THEN "out_of_domain"
     ELSE IF ~Pinned(k, q) THEN ""
     ELSE IF out.kind = "val" /\ out.v \in AcceptedAnswers(k, q) THEN "" ELSE q.op
